@@ -106,6 +106,16 @@ func stackVariants(full bool) []struct {
 	el := one(F, FILE, 10, Sc(1), Sc(p1))
 	el.Elided = true
 	out = append(out, sv{"f(1,p1) elided-frames", el})
+	// an elision INSIDE an aggregate, three times with another pointer: the merged key must stay in the class of the
+	// third; and a file whose name differs by letter case only (base context only, see Universe)
+	out = append(out,
+		sv{"f({1,p2,...})", one(F, FILE, 10, Ag(true, Sc(1), Sc(p2)))},
+		sv{"f({1,p3,...})", one(F, FILE, 10, Ag(true, Sc(1), Sc(p3)))},
+		sv{"f(1,p1)@Main.go", one(F, "/src/app/Main.go", 10, Sc(1), Sc(p1))},
+	)
+	if !full {
+		out = append(out, sv{"f({1,p1,...})", one(F, FILE, 10, Ag(true, Sc(1), Sc(p1)))})
+	}
 	if full {
 		ae := stack.Stack{Calls: []stack.Call{MkCall(F, FILE, 10, 0, stack.Args{Values: []stack.Arg{Sc(1), Sc(p1)}, Elided: true})}}
 		out = append(out,
@@ -125,6 +135,9 @@ func stackVariants(full bool) []struct {
 	}
 	return out
 }
+
+// baseOnly variants appear in the base context (first state, not locked, no sleep, no creator) only.
+var baseOnly = map[string]bool{"f({1,p1,...})": true, "f({1,p2,...})": true, "f({1,p3,...})": true, "f(1,p1)@Main.go": true}
 
 // Universe builds the signature universe. size: "small" (a star of ~140 signatures), "medium" (nearly the full product, ~530), "large" (full product with more contexts and stack variants).
 func Universe(size string) []SnapVariant {
@@ -170,6 +183,9 @@ func Universe(size string) []SnapVariant {
 						}
 						if (ci == 3 || ci == 4) && !(si == 0 && li == 0 && sli == 0) {
 							continue // the multi-call creators only with the base state/lock/sleep (every size)
+						}
+						if baseOnly[sv.desc] && !(si == 0 && li == 0 && sli == 0 && ci == 0) && !(full && sv.desc == "f({1,p1,...})") {
+							continue
 						}
 						if si == 2 && !(li == 0 && sli == 0 && ci == 0) {
 							continue // the qualified state only with the base lock/sleep/creator (every size)
